@@ -358,4 +358,142 @@ example : rwRun (fun t => if t = ofString "/a" then [.matched [some (0, 2)], .no
     [ofString "/b", ofString "/c"] 0 none ⟨0⟩ none none 80 200 (ofString "/a") none 0
     = .served (ofString "/c") 2 := by decide
 
+/-! ## alias.url -/
+
+/-- mod_alias_remap(): the alias applied is the first one (in configuration order) whose key is a
+    prefix of the url-path; exactly the document root and that key are replaced by the alias
+    value, everything behind the key is kept byte for byte; the value becomes the new basedir. -/
+theorem c20_alias_exact_prefix (aliases : List (Bytes × Bytes)) (basedir path p' b' : Bytes)
+    (h : aliasRemap false aliases basedir path = .remapped p' b') :
+    ∃ (pre post : List (Bytes × Bytes)) (k v rest : Bytes),
+      aliases = pre ++ (k, v) :: post ∧
+      (∀ kv ∈ pre, ¬ kv.1 <+: path.drop (baseLen basedir)) ∧
+      path.drop (baseLen basedir) = k ++ rest ∧ p' = v ++ rest ∧ b' = v := by
+  unfold aliasRemap at h
+  split at h
+  · simp at h
+  · cases hf : List.find? (aliasKeyMatches false (path.drop (baseLen basedir))) aliases with
+    | none => simp [hf] at h
+    | some kv =>
+      obtain ⟨k, v⟩ := kv
+      simp only [hf] at h
+      split at h
+      · simp at h
+      · simp only [AliasRes.remapped.injEq] at h
+        rw [List.find?_eq_some_iff_append] at hf
+        obtain ⟨hm, pre, post, hl, hpre⟩ := hf
+        simp only [aliasKeyMatches, Bool.false_eq_true, if_false, Bool.and_eq_true, decide_eq_true_eq,
+                   beq_iff_eq] at hm
+        refine ⟨pre, post, k, v, (path.drop (baseLen basedir)).drop k.length, hl, ?_, ?_, h.1.symm, h.2.symm⟩
+        · intro kv hkv hpfx
+          have := hpre kv hkv
+          simp only [aliasKeyMatches, Bool.false_eq_true, if_false, Bool.not_eq_eq_eq_not, Bool.not_true,
+                     Bool.and_eq_false_iff, decide_eq_false_iff_not, beq_eq_false_iff_ne] at this
+          obtain ⟨r, hr⟩ := hpfx
+          rcases this with h1 | h2
+          · apply h1; rw [← hr]; simp
+          · apply h2; rw [← hr]; simp
+        · conv => lhs; rw [← List.take_append_drop k.length (path.drop (baseLen basedir))]
+          rw [hm.2]
+
+example : aliasRemap false [(ofString "/cgi-bin/", ofString "/usr/lib/cgi-bin/"), (ofString "/doc", ofString "/usr/share/doc")]
+    (ofString "/var/www/") (ofString "/var/www/doc/x.html")
+    = .remapped (ofString "/usr/share/doc/x.html") (ofString "/usr/share/doc") := by decide
+example : aliasRemap false [(ofString "/doc", ofString "/usr/share/doc/")] (ofString "/var/www") (ofString "/var/www/doc../x")
+    = .forbidden := by decide
+
+/-! ## virtual hosts -/
+
+/-- mod_simple_vhost: the document root is server-root ++ host name ++ (a tail that depends on
+    simple-vhost.document-root only); the host name used is the Host value up to the port, so it
+    contains no ':' and — the validated host containing no '/' — no '/' either: the request's
+    host selects a single directory level below the server root. -/
+theorem c20_simple_vhost_root (sroot host : Bytes) (droot : Option Bytes) :
+    ∃ tail, simpleVhostRoot sroot (some host) droot = sroot ++ hostNoPort host ++ tail ∧
+      (droot = none → tail = [] ∨ tail = [slash]) ∧
+      (∀ d, droot = some d → tail = d ∨ tail = d.drop 1 ∨ tail = slash :: d) ∧
+      hostNoPort host <+: host ∧ colon ∉ hostNoPort host ∧ (slash ∉ host → slash ∉ hostNoPort host) := by
+  have hp : hostNoPort host <+: host := List.takeWhile_prefix _
+  have hc : colon ∉ hostNoPort host := by
+    intro hm
+    have := mem_takeWhile_imp hm
+    simp at this
+  have hs : slash ∉ host → slash ∉ hostNoPort host := fun h hm => h (hp.subset hm)
+  cases droot with
+  | none =>
+    simp only [simpleVhostRoot, appendSlash]
+    split
+    · exact ⟨[slash], by simp, by simp, by simp, hp, hc, hs⟩
+    · exact ⟨[], by simp, by simp, by simp, hp, hc, hs⟩
+  | some d =>
+    simp only [simpleVhostRoot, appendPath]
+    split
+    · split
+      · exact ⟨d.drop 1, by simp, by simp, by simp, hp, hc, hs⟩
+      · exact ⟨d, by simp, by simp, by simp, hp, hc, hs⟩
+    · split
+      · exact ⟨d, by simp, by simp, by simp, hp, hc, hs⟩
+      · exact ⟨slash :: d, by simp, by simp, by simp, hp, hc, hs⟩
+
+example : simpleVhostRoot (ofString "/srv/www/") (some (ofString "example.com:8080")) (some (ofString "/htdocs/"))
+    = ofString "/srv/www/example.com/htdocs/" := by decide
+
+/-- mod_evhost: whatever a %-piece of evhost.path-pattern expands to (%0..%9, %{N}, %{N.M}, %_) is a
+    part of the Host value — it contains no '/' when the validated host contains none — so only
+    the literal text of the configured pattern decides how deep below which directory the
+    document root lies. -/
+theorem c20_evhost_pieces_from_host (authority piece : Bytes) (hs : slash ∉ authority)
+    (hp : piece.head? = some pct) :
+    slash ∉ evPiece (evParseHost authority) authority piece := by
+  have hv : ∀ n v, evLookup (evParseHost authority) n = some v → slash ∉ v := by
+    intro n v h
+    obtain ⟨e, he, hev⟩ := evLookup_mem h
+    exact hev ▸ not_mem_of_infix (evParseHost_infix authority e he) hs
+  have hg : ∀ n, slash ∉ (evLookup (evParseHost authority) n).getD [] := by
+    intro n
+    cases h : evLookup (evParseHost authority) n with
+    | none => simp
+    | some v => simpa using hv n v h
+  unfold evPiece
+  split
+  · rename_i p0 p1 rest
+    simp only [List.head?_cons, Option.some.injEq] at hp
+    subst hp
+    simp only [ne_eq, not_true_eq_false, if_false]
+    split
+    · decide
+    · split
+      · exact fun hm => hs ((List.takeWhile_prefix _).subset hm)
+      · split
+        · split
+          · rename_i x y z _
+            cases h : evLookup (evParseHost authority) (x.toNat - 48) with
+            | none => simp
+            | some v =>
+              simp only
+              split
+              · exact hv _ v h
+              · split
+                · rename_i hle
+                  intro hm
+                  simp only [List.mem_singleton] at hm
+                  rcases getD_zero_or_mem v (z.toNat - 48 - 1) with h0 | hmem
+                  · rw [h0] at hm; exact absurd hm (by decide)
+                  · exact hv _ v h (hm ▸ hmem)
+                · simp
+          · exact hg _
+          · simp
+        · exact hg _
+  · cases piece with
+    | nil => simp
+    | cons a t =>
+      simp only [List.head?_cons, Option.some.injEq] at hp
+      subst hp
+      cases t with
+      | nil => decide
+      | cons b t' => rename_i hne; exact absurd rfl (hne pct b t')
+
+example : (evParsePattern (ofString "/srv/%0/%3/%{2.1}/%_/%%")).map (fun p => evhostRoot p (ofString "sub2.sub1.domain.tld:81"))
+    = some (ofString "/srv/domain.tld/sub1/d/sub2.sub1.domain.tld/%/") := by decide
+
 end LtVerif.C20
